@@ -700,3 +700,387 @@ SUBCHECKS = [
     SubCheck('pred', lambda: PRED_SPEC, run_case, quick=220, thorough=5000, quick_time=240, thorough_time=3000),
     SubCheck('advan', lambda: ADVAN_SPEC, run_case, quick=220, thorough=5000, quick_time=240, thorough_time=3000),
 ]
+
+
+# ==========================================================================================
+# $MODEL-based structures: ADVAN5/7 (Kij / KiTj rate constants) and ADVAN6/8/9/13 ($DES)
+
+from ..ref import nmmodel as NM  # noqa: E402
+
+STRUCT_SPEC = st.fixed_dictionaries(
+    dict(
+        kind=st.sampled_from(['linear', 'des']),
+        n=st.integers(1, 4),
+        edges=st.lists(st.tuples(st.integers(0, 3), st.integers(0, 3), st.integers(0, 5)).map(list), min_size=0, max_size=6),
+        outs=st.lists(st.integers(0, 3), min_size=1, max_size=2),
+        defdose=st.integers(0, 5),
+        defobs=st.integers(0, 5),
+        names=st.integers(0, 3),
+        scale=st.booleans(),
+        alag=st.booleans(),
+        bio=st.booleans(),
+        mm=st.booleans(),
+        kt=st.booleans(),
+        advan=st.integers(0, 3),
+        termorder=st.integers(0, 3),
+        sumflow=st.integers(0, 3),
+        noise=G.NOISE,
+        vals=st.lists(st.integers(1, 60), min_size=24, max_size=24),
+    )
+)
+
+NAMESETS = [
+    ['CENTRAL', 'PERIPH', 'DEPOT', 'EFFECT'],
+    ['DEPOT', 'CENTRAL', 'PERI1', 'PERI2'],
+    ['COMP1', 'COMP2', 'COMP3', 'COMP4'],
+    ['GUT', 'CENTRAL', 'TISSUE', 'DEEP'],
+]
+
+
+def build_struct(spec):
+    b = Built()
+    n = 1 + (spec['n'] - 1) % 4
+    names = NAMESETS[spec['names'] % len(NAMESETS)][:n]
+    kind = spec['kind'] if spec['kind'] in ('linear', 'des') else 'des'
+    edges = {}
+    for i, j, _ in spec['edges'][:6]:
+        i, j = i % n, j % n
+        if i != j:
+            edges[(i + 1, j + 1)] = True
+    outs = sorted({1 + o % n for o in spec['outs'][:2]})
+    # every compartment must be connected to something so that to_compartmental_system sees it
+    for c in range(1, n + 1):
+        if not any(c in e for e in edges) and c not in outs:
+            edges[(c, 1 + c % n)] = True if n > 1 else None
+            if n == 1:
+                outs = [1]
+    edges = {e: v for e, v in edges.items() if v}
+    defdose = 1 + spec['defdose'] % n if spec['defdose'] % 6 < 4 else None
+    defobs = 1 + spec['defobs'] % n if spec['defobs'] % 6 < 4 else None
+    comps = []
+    for i, nm in enumerate(names, 1):
+        opts = []
+        if defdose == i:
+            opts.append('DEFDOSE')
+        if defobs == i:
+            opts.append(['DEFOBS', 'DEFOBSERVATION'][spec['termorder'] % 2])
+        comps.append(f'COMP=({nm}{" " if opts else ""}{" ".join(opts)})' if spec['termorder'] % 2 else f'COMPARTMENT=({nm}{" " if opts else ""}{" ".join(opts)})')
+    pk = []
+    rate_names = {}
+    k = 0
+    for (i, j) in sorted(edges):
+        nm = f'K{i}T{j}' if (kind == 'linear' and spec['kt']) else f'K{i}{j}'
+        rate_names[(i, j)] = nm
+        pk.append(('asg', nm, ('bin', '*', ('num', float(k + 2) / 10, repr(float(k + 2) / 10)), ('call', 'EXP', (('bin', '*', ('num', 0.1, '0.1'), ('idx', 'THETA', (1 + k % 3,))),)))))
+        k += 1
+    for i in outs:
+        nm = f'K{i}T0' if (kind == 'linear' and spec['kt']) else f'K{i}0'
+        rate_names[(i, 0)] = nm
+        pk.append(('asg', nm, ('bin', '*', ('num', float(k + 2) / 10, repr(float(k + 2) / 10)), ('call', 'EXP', (('idx', 'ETA', (1,)),)))))
+        k += 1
+    mm = None
+    if kind == 'des' and spec['mm']:
+        mm = outs[0]
+        pk.append(('asg', 'VM', ('bin', '+', ('num', 2.0, '2'), ('idx', 'THETA', (2,)))))
+        pk.append(('asg', 'KM', ('bin', '+', ('num', 3.0, '3'), ('idx', 'THETA', (3,)))))
+    # observation / dose compartments by NM-TRAN defaults
+    tm_comps = [(nm, set()) for nm in names]
+    obs = defobs or next((i for i, nm in enumerate(names, 1) if nm == 'CENTRAL'), 1)
+    dose = defdose or next((i for i, nm in enumerate(names, 1) if nm == 'DEPOT'), 1)
+    b.scale_name = None
+    if spec['scale']:
+        b.scale_name = f'S{obs}'
+        pk.append(('asg', b.scale_name, ('bin', '+', ('num', 5.0, '5'), ('idx', 'THETA', (1,)))))
+    if spec['alag']:
+        pk.append(('asg', f'ALAG{dose}', ('bin', '*', ('num', 0.5, '0.5'), ('idx', 'THETA', (2,)))))
+    if spec['bio']:
+        pk.append(('asg', f'F{dose}', ('bin', '/', ('num', 1.0, '1'), ('bin', '+', ('num', 1.0, '1'), ('call', 'EXP', (('idx', 'THETA', (3,)),))))))
+    des = []
+    # one flow may be the sum of two rate constants, written (K+KX)*A(i) or as two separate terms
+    sumedge = None
+    if kind == 'des' and spec.get('sumflow', 0) % 4 in (1, 2) and rate_names:
+        sumedge = sorted(rate_names)[0]
+        if mm is not None and sumedge == (mm, 0):
+            sumedge = None
+    if sumedge is not None:
+        pk.append(('asg', 'KX', ('bin', '*', ('num', 0.15, '0.15'), ('call', 'EXP', (('bin', '*', ('num', 0.2, '0.2'), ('idx', 'THETA', (2,))),)))))
+    if kind == 'des':
+        for c in range(1, n + 1):
+            terms = []
+            for (i, j), nm in sorted(rate_names.items()):
+                rate = ('var', nm)
+                extra = None
+                if (i, j) == sumedge:
+                    if spec['sumflow'] % 4 == 1:
+                        rate = ('bin', '+', ('var', nm), ('var', 'KX'))
+                    else:
+                        extra = ('var', 'KX')
+                if i == c:
+                    if mm == c and j == 0:
+                        continue
+                    terms.append(('neg', ('bin', '*', rate, ('idx', 'A', (c,)))) if spec['termorder'] < 2 else ('neg', ('bin', '*', ('idx', 'A', (c,)), rate)))
+                    if extra is not None:
+                        terms.append(('neg', ('bin', '*', extra, ('idx', 'A', (c,)))))
+                if j == c:
+                    terms.append(('bin', '*', rate, ('idx', 'A', (i,))))
+                    if extra is not None:
+                        terms.append(('bin', '*', extra, ('idx', 'A', (i,))))
+            if mm == c:
+                terms.append(('neg', ('bin', '/', ('bin', '*', ('var', 'VM'), ('idx', 'A', (c,))), ('bin', '+', ('var', 'KM'), ('idx', 'A', (c,))))))
+            if spec['termorder'] % 2:
+                terms = terms[::-1]
+            # first term may be negative; print as sum
+            e = None
+            for t in terms:
+                if e is None:
+                    e = t
+                elif t[0] == 'neg':
+                    e = ('bin', '-', e, t[1])
+                else:
+                    e = ('bin', '+', e, t)
+            if e is None:
+                e = ('num', 0.0, '0')
+            des.append(('asg', f'DADT({c})', e))
+        if mm is not None:
+            rate_names.pop((mm, 0), None)
+            pk[:] = [s_ for s_ in pk if s_[1] != f'K{mm}0']
+    b.n, b.names, b.kind = n, names, kind
+    err = [('asg', 'IPRED', ('var', 'F')), ('asg', 'Y', ('bin', '+', ('var', 'IPRED'), ('bin', '*', ('var', 'IPRED'), ('idx', 'EPS', (1,)))))]
+    p = G.Printer(spec['noise'])
+    advan = [5, 7][spec['advan'] % 2] if kind == 'linear' else [6, 13, 8, 9][spec['advan'] % 4]
+    out = ['$PROBLEM generated structural model', '$INPUT ID TIME AMT DV', '$DATA gen.csv IGNORE=@', f'$SUBROUTINES ADVAN{advan}' + (' TOL=5' if kind == 'des' else ''), '$MODEL ' + ' '.join(comps), '$PK']
+    out += p.code(pk)
+    if kind == 'des':
+        out.append('$DES')
+        out += p.code(des)
+    out.append('$ERROR')
+    out += p.code(err)
+    out += ['$THETA (0,1) (0,0.5,5) 0.3', '$OMEGA 0.1', '$SIGMA 0.04', '$ESTIMATION METHOD=1 INTER']
+    b.text = '\n'.join(out) + '\n'
+    b.pk, b.des, b.error = pk, des, err
+    b.advan = advan
+    b.expect_dose, b.expect_obs = dose, obs
+    b.edges, b.outs, b.mm = sorted(edges), outs, mm
+    return b
+
+
+def run_struct(spec):
+    import warnings
+
+    from pharmpy.modeling import read_model_from_string
+
+    b = build_struct(spec)
+    try:
+        tm = NM.TextModel(b.text)
+    except (R.Unsupported, R.NMSyntaxError) as e:
+        raise HarnessError(f'reference cannot parse generated text: {e}\n{b.text}')
+    if (tm.defdose, tm.defobs, tm.ncomp) != (b.expect_dose, b.expect_obs, b.n):
+        raise HarnessError(f'reference $MODEL defaults differ from generator: {(tm.defdose, tm.defobs, tm.ncomp)} vs {(b.expect_dose, b.expect_obs, b.n)}\n{b.text}')
+    for nm, ast in (('PK', b.pk), ('DES', b.des), ('ERROR', b.error)):
+        if ast and tm.code.get(nm) != G.strip_code(ast):
+            raise HarnessError(f'reference parse of ${nm} differs from generator AST\n{tm.code.get(nm)}\n{G.strip_code(ast)}\n{b.text}')
+    with warnings.catch_warnings():
+        warnings.simplefilter('ignore')
+        model = guard(read_model_from_string, b.text, allowed=(), clause=f'read[{b.kind}]')
+    ode = model.statements.ode_system
+    if ode is None:
+        raise Violation(f'struct[{b.kind}]:no-ode-system', detail=b.text)
+    cmap = dict(getattr(model.internals, 'compartment_map', None) or {})
+    cmap.pop('OUTPUT', None)
+    exp_map = {nm: i for i, nm in enumerate(b.names, 1)}
+    if cmap != exp_map:
+        raise Violation(f'struct[{b.kind}]:compartment-map', observed=cmap, expected=exp_map, detail=b.text)
+    if sorted(ode.compartment_names) != sorted(b.names):
+        raise Violation(f'struct[{b.kind}]:compartment-names', observed=ode.compartment_names, expected=b.names, detail=b.text)
+    rvp = set(model.random_variables.parameter_names)
+    ths = [p_.name for p_ in model.parameters if p_.name not in rvp]
+    etas = list(model.random_variables.etas.names)
+    epss = list(model.random_variables.epsilons.names)
+    used = 0
+    for k in range(6):
+        if used >= 3:
+            break
+        pt = modeleval.sample_point(model, spec['vals'][0] + k)
+        theta = [pt.params[n_] for n_ in ths]
+        eta = [pt.etas[n_] for n_ in etas]
+        eps = [pt.eps[n_] for n_ in epss]
+        data = {c.upper(): v for c, v in pt.data.items()}
+        amounts = {exp_map[c]: pt.amounts[c] for c in b.names}
+        try:
+            tv = tm.evaluate(theta, eta, eps, data, amounts)
+        except R.UndefinedVariable as u:
+            raise HarnessError(f'generated program reads undefined variable {u}\n{b.text}')
+        if tv['nonfinite']:
+            continue
+        mv = modeleval.evaluate(model, pt)
+        used += 1
+        for c in b.names:
+            a = mv.rhs.get(c)
+            if a is modeleval.UNDEF:
+                raise Violation(f'struct[{b.kind}]:undefined-symbol-in-ode', observed=mv.undefined, detail=b.text)
+            if not close(a, tv['rhs'][exp_map[c]], rtol=1e-9, atol=1e-12):
+                raise Violation(f'struct[{b.kind}]:ode-rhs', observed=a, expected=tv['rhs'][exp_map[c]], detail=f'd/dt of {c} (compartment {exp_map[c]})\n{b.text}')
+        dosed = sorted(exp_map[c] for c in mv.doses)
+        if dosed != [tm.defdose]:
+            raise Violation(f'struct[{b.kind}]:dose-compartment', observed=dosed, expected=[tm.defdose], detail=b.text)
+        for c in mv.doses:
+            n_ = exp_map[c]
+            if not close(mv.lag[c], tv['pk'].get(f'ALAG{n_}', 0.0)) or not close(mv.bio[c], tv['pk'].get(f'F{n_}', 1.0)):
+                raise Violation(f'struct[{b.kind}]:lag-or-bioavailability', observed=(mv.lag[c], mv.bio[c]), expected=(tv['pk'].get(f'ALAG{n_}', 0.0), tv['pk'].get(f'F{n_}', 1.0)), detail=b.text)
+        for name in ('F', 'IPRED', 'Y'):
+            got = mv.vars.get(name, modeleval.UNDEF)
+            if got is modeleval.UNDEF or not close(got, tv['err'][name], rtol=1e-9, atol=1e-12):
+                raise Violation(f'struct[{b.kind}]:value:{name}', observed=None if got is modeleval.UNDEF else got, expected=tv['err'][name], detail=b.text)
+    if used == 0:
+        raise Reject('no finite sample')
+    classes = [b.kind, f'ADVAN{b.advan}', f'n={b.n}', f'defobs={"explicit" if spec["defobs"] % 6 < 4 else "default"}', f'defdose={"explicit" if spec["defdose"] % 6 < 4 else "default"}']
+    if b.mm:
+        classes.append('michaelis-menten')
+    cyc = any((j, i) in b.edges for (i, j) in b.edges)
+    if cyc:
+        classes.append('bidirectional')
+    if spec['kt'] and b.kind == 'linear':
+        classes.append('KiTj-names')
+    if b.kind == 'des' and spec.get('sumflow', 0) % 4 in (1, 2):
+        classes.append('flow-sum-of-two-rates')
+    nt = b.n >= 2 and (cyc or len(b.outs) > 1 or b.mm is not None or b.expect_obs != 1 or b.expect_dose != 1)
+    return CaseInfo(nontrivial=nt, classes=tuple(classes), render=b.text, evals=used)
+
+
+from .. import modeleval  # noqa: E402
+
+SUBCHECKS.append(SubCheck('struct', lambda: STRUCT_SPEC, run_struct, quick=160, thorough=4000, quick_time=240, thorough_time=3000))
+
+
+# ==========================================================================================
+# IF blocks: every branch is visited (conditions select on a data item, samples iterate over it)
+
+BLOCK_SPEC = st.fixed_dictionaries(
+    dict(
+        nvar=st.integers(2, 4),
+        pre=st.lists(st.booleans(), min_size=4, max_size=4),  # which variables are assigned before the blocks
+        blocks=st.lists(
+            st.fixed_dictionaries(
+                dict(
+                    nbr=st.integers(1, 4),
+                    els=st.booleans(),
+                    assign=st.lists(st.lists(st.integers(0, 7), min_size=0, max_size=3), min_size=5, max_size=5),
+                    sel=st.integers(0, 2),
+                )
+            ),
+            min_size=1,
+            max_size=2,
+        ),
+        logical=st.lists(st.tuples(st.integers(0, 3), st.integers(0, 4)).map(list), min_size=0, max_size=2),
+        noise=G.NOISE,
+        selfref=st.booleans(),
+    )
+)
+
+
+def build_blocks(spec):
+    nvar = 2 + (spec['nvar'] - 2) % 3
+    vars_ = [f'X{i + 1}' for i in range(nvar)]
+    stmts = []
+    defs = set()
+    c = [0]
+
+    def val(v, self_ok):
+        c[0] += 1
+        base = ('bin', '+', ('num', float(c[0]), str(c[0])), ('bin', '*', ('num', 0.5, '0.5'), ('idx', 'THETA', (1 + c[0] % 2,))))
+        if self_ok and spec['selfref'] and v in defs and c[0] % 3 == 0:
+            return ('bin', '+', ('var', v), base)  # X = X + ...: reads its own previous value only
+        return base
+
+    for i, v in enumerate(vars_):
+        if spec['pre'][i % 4]:
+            stmts.append(('asg', v, val(v, False)))
+            defs.add(v)
+    sels = ['GRP', 'GRP', 'SEL']
+    maxsel = 1
+    for bl in spec['blocks'][:2]:
+        nbr = 1 + (bl['nbr'] - 1) % 4
+        sel = sels[bl['sel'] % 3]
+        branches = []
+        assigned_all = None
+        for bi in range(nbr):
+            names = []
+            for k in bl['assign'][bi % 5][:3]:
+                v = vars_[k % nvar]
+                if v not in names:
+                    names.append(v)
+            body = [('asg', v, val(v, True)) for v in names]
+            cond = ('rel', '==', ('var', sel), ('num', float(bi + 1), str(bi + 1)), ['.EQ.', '=='][bi % 2])
+            branches.append((cond, body))
+            assigned_all = set(names) if assigned_all is None else assigned_all & set(names)
+        els = None
+        if bl['els']:
+            names = []
+            for k in bl['assign'][4][:3]:
+                v = vars_[k % nvar]
+                if v not in names:
+                    names.append(v)
+            els = [('asg', v, val(v, True)) for v in names]
+            assigned_all &= set(names)
+            defs |= assigned_all
+        stmts.append(('if', branches, els))
+        maxsel = max(maxsel, nbr + 1)
+    for vi, gi in spec['logical'][:2]:
+        v = vars_[vi % nvar]
+        stmts.append(('if', [(('rel', '==', ('var', 'GRP'), ('num', float(1 + gi % 4), str(1 + gi % 4)), '.EQ.'), [('asg', v, val(v, True))])], None))
+    readable = sorted(defs)
+    y = ('idx', 'THETA', (1,))
+    for v in readable:
+        y = ('bin', '+', y, ('var', v))
+    stmts.append(('asg', 'Y', ('bin', '+', y, ('idx', 'EPS', (1,)))))
+    p = G.Printer(spec['noise'])
+    text = '\n'.join(['$PROBLEM generated IF blocks', '$INPUT ID TIME GRP SEL DV', '$DATA gen.csv IGNORE=@', '$PRED'] + p.code(stmts) + ['$THETA 0.7 1.3', '$OMEGA 0.1', '$SIGMA 0.04', '$ESTIMATION METHOD=1 INTER']) + '\n'
+    return text, stmts, readable, maxsel, vars_
+
+
+def run_blocks(spec):
+    import warnings
+
+    from pharmpy.modeling import read_model_from_string
+
+    text, stmts, readable, maxsel, vars_ = build_blocks(spec)
+    tm = NM.TextModel(text)
+    if tm.code.get('PRED') != G.strip_code(stmts):
+        raise HarnessError(f'reference parse differs from generator AST\n{text}')
+    with warnings.catch_warnings():
+        warnings.simplefilter('ignore')
+        model = guard(read_model_from_string, text, allowed=(), clause='read[blocks]')
+    ths = [p_.name for p_ in model.parameters if p_.name not in set(model.random_variables.parameter_names)]
+    etas = list(model.random_variables.etas.names)
+    epss = list(model.random_variables.epsilons.names)
+    used = 0
+    for grp in range(1, maxsel + 1):
+        for sel in range(1, maxsel + 1):
+            pt = modeleval.sample_point(model, grp * 7 + sel)
+            pt.data.update(GRP=float(grp), SEL=float(sel))
+            theta = [pt.params[n_] for n_ in ths]
+            tv = tm.evaluate(theta, [pt.etas[n_] for n_ in etas], [pt.eps[n_] for n_ in epss], {k.upper(): v for k, v in pt.data.items()}, {})
+            mv = modeleval.evaluate(model, pt)
+            used += 1
+            for v in readable + ['Y']:
+                got = mv.vars.get(v, modeleval.UNDEF)
+                exp = tv['err'][v]
+                if got is modeleval.UNDEF or not close(got, exp, rtol=1e-9, atol=1e-12):
+                    raise Violation('blocks:value', observed=None if got is modeleval.UNDEF else got, expected=exp, detail=f'{v} at GRP={grp} SEL={sel}\n{text}')
+            # variables that are assigned on the executed path (but not on every path) must agree as well
+            for v in vars_:
+                if v in readable:
+                    continue
+                if v in tv['err']:
+                    got = mv.vars.get(v, modeleval.UNDEF)
+                    if got is modeleval.UNDEF or not close(got, tv['err'][v], rtol=1e-9, atol=1e-12):
+                        raise Violation('blocks:value-on-executed-path', observed=None if got is modeleval.UNDEF else got, expected=tv['err'][v], detail=f'{v} at GRP={grp} SEL={sel}\n{text}')
+    nbl = [1 + (b_['nbr'] - 1) % 4 for b_ in spec['blocks'][:2]]
+    classes = [f'branches={max(nbl)}', 'else' if any(b_['els'] for b_ in spec['blocks'][:2]) else 'no-else', f'blocks={len(nbl)}']
+    partial = any(True for s_ in stmts if s_[0] == 'if' and len({tuple(sorted(a[1] for a in body)) for _, body in s_[1]}) > 1)
+    if partial:
+        classes.append('branches-assign-different-variables')
+    return CaseInfo(nontrivial=partial and max(nbl) >= 2, classes=tuple(classes), render=text, evals=used)
+
+
+SUBCHECKS.append(SubCheck('blocks', lambda: BLOCK_SPEC, run_blocks, quick=240, thorough=6000, quick_time=240, thorough_time=3000))
